@@ -3,11 +3,14 @@
 From GV Require Import Lib.Bytes Lib.Heap Corr.Val Model.Unsafex.
 Open Scope Z_scope.
 
-(* input  (op baseLen off len cap nilflag)
+(* input  (op baseLen off len cap nilflag variant)   variant 0: the compiled build variant, 1: the
+          !go1.21 file (generated copy); Model/Unsafex.v is the model of both
+
    output (ptrOff len cap contentEqual appendKeptOriginal appendContentOK) *)
 Definition check (c : cval) : verdict :=
   match c with
-  | L [L [I op; I bl; I off; I ln; I cp; I nilf]; L [I po; I rl; I rc; I ceq; I kept; I appok]] =>
+  | L [L [I op; I bl; I off; I ln; I cp; I nilf; I vr]; L [I po; I rl; I rc; I ceq; I kept; I appok]] =>
+    if negb ((vr =? 0) || (vr =? 1)) then bad_case else
     let isnil := negb (nilf =? 0) in
     let p : option ptr := if isnil then None else Some (O, Z.to_N off) in
     let '(mptr, mlen, mcap) :=
@@ -26,6 +29,6 @@ Definition check (c : cval) : verdict :=
     let s := negb (ceq =? 0) && (rl =? (if isnil then 0 else ln))
              && (if (0 <? rl) then po =? off else true)
              && (if op =? 0 then true else (rc =? rl) && negb (kept =? 0) && negb (appok =? 0)) in
-    mk a s (1 + op * 4 + (if isnil then 2 else 0) + (if ln =? 0 then 0 else 1))
+    mk a s (1 + op * 4 + (if isnil then 2 else 0) + (if ln =? 0 then 0 else 1) + 8 * vr)
   | _ => bad_case
   end.
